@@ -1,6 +1,9 @@
 (* Inst_C08 — the footprint tables of Model/Reuse.v against the field-effect tables regenerated from the Go source
-   (Gen/FieldFx.v, go/ssa): every struct field is known to the model (a new field breaks the lemma), no entry point
-   reads an incoming field value the model does not list, every field the model calls Keep has no unbalanced store,
+   (Gen/FieldFx.v, go/ssa): every model field is played by exactly one struct field (found by its role, Gen/FieldFx
+   parser_roles: a renamed field is the same column), every other struct field is dead on entry of every method or
+   well behaved (extras_ok: the extended table satisfies the generic read-before-write condition, Props/C08
+   C08_extra_fields_admitted; a new field that is read before it is written and not reset breaks the lemma), no entry
+   point reads an incoming field value the model does not list, every field the model calls Keep has no unbalanced store,
    every field the model calls Zero is assigned on every path (parser: with the zero value), every other exported
    method is a getter of well-behaved fields.  Complete evaluation. *)
 From Coq Require Import List NArith Bool String.
@@ -8,11 +11,11 @@ From GV Require Import Model.Reuse Gen.FieldFx Gen.CallGraphTable.
 Import ListNotations.
 
 Lemma parser_fieldfx_ok :
-  fx_compat (ptable no_defects) pfield_name pop_methods pguard_r pguard_w true parser_fields parser_fx = true.
+  fx_compat (ptable no_defects) (role_name parser_roles pfield_name) pop_methods pguard_r pguard_w true parser_fields parser_fx = true.
 Proof. vm_compute. reflexivity. Qed.
 
 Lemma tokenizer_fieldfx_ok :
-  fx_compat (ttable no_tdefects) tfield_name top_methods tguard_r tguard_w false tokenizer_fields tokenizer_fx = true.
+  fx_compat (ttable no_tdefects) (role_name tokenizer_roles tfield_name) top_methods tguard_r tguard_w false tokenizer_fields tokenizer_fx = true.
 Proof. vm_compute. reflexivity. Qed.
 
 (* every function that increments the depth counter defers its decrement (C02's guard recogniser) *)
